@@ -397,3 +397,532 @@ Fixpoint tsort (t : dtype) : dtype :=
 
 (* DataType.json() followed by _parse_datatype_json_string *)
 Definition parse_json_string_of (t : dtype) : res dtype := parse_json_value (jsort (to_json t)).
+
+(* ================================================================== Part 2: Python values *)
+Inductive pyval :=
+| PNone
+| PBool (b : bool)
+| PInt (z : Z)
+| PFloat (f : float)
+| PStr (s : str)
+| PBytearray (s : str)
+| PBytes (s : str)
+| PDecimal (s : str)                     (* decimal.Decimal, identified by its string *)
+| PDate (d : Z)                          (* datetime.date, by its ordinal *)
+| PDatetime (us : Z) (tz : option Z)     (* naive: its wall-clock microseconds; aware: UTC microseconds + UTC offset *)
+| PList (l : list pyval)
+| PTuple (l : list pyval)
+| PDict (kv : list (pyval * pyval))      (* insertion order *)
+| PRow (fields : list str) (vals : list pyval).   (* a Row carrying __fields__ *)
+
+Definition pytype_name (v : pyval) : string :=
+  match v with
+  | PNone => "NoneType" | PBool _ => "bool" | PInt _ => "int" | PFloat _ => "float" | PStr _ => "str"
+  | PBytearray _ => "bytearray" | PBytes _ => "bytes" | PDecimal _ => "Decimal" | PDate _ => "date"
+  | PDatetime _ _ => "datetime" | PList _ => "list" | PTuple _ => "tuple" | PDict _ => "dict" | PRow _ _ => "Row"
+  end%string.
+
+(* the classes a value is an instance of (besides object) *)
+Definition mro (n : string) : list string :=
+  (if String.eqb n "bool" then ["bool"; "int"]
+   else if String.eqb n "datetime" then ["datetime"; "date"]
+   else if String.eqb n "Row" then ["Row"; "tuple"]
+   else [n])%string.
+Definition isinstance (v : pyval) (classes : list string) : bool :=
+  existsb (fun c => smem c classes) (mro (pytype_name v)).
+
+Definition is_none (v : pyval) : bool := match v with PNone => true | _ => false end.
+Definition is_null (t : dtype) : bool := match t with TAtom ANull => true | _ => false end.
+Definition t_null : dtype := TAtom ANull.
+
+(* bool(v) for the containers and scalars that reach `obj and [...]` *)
+Definition py_falsy (v : pyval) : bool :=
+  match v with
+  | PNone | PBool false | PInt 0 | PStr [] | PBytearray [] | PBytes [] | PList [] | PTuple [] | PDict [] | PRow _ [] => true
+  | PFloat f => PrimFloat.eqb f PrimFloat.zero
+  | _ => false
+  end.
+
+(* ------------------------------------------------------------------ inference (_infer_type, _infer_schema) *)
+Definition infer_decimal_type : dtype := TDecimal (Z.to_N (fst infer_decimal)) (snd infer_decimal).
+
+(* `_type_mappings.get(type(obj))`, then the instance the class denotes *)
+Definition infer_mapped (v : pyval) : option (res dtype) :=
+  match slookup (pytype_name v) type_mappings with
+  | Some cls => Some (if String.eqb cls "DecimalType" then Ok infer_decimal_type else dtype_of_class cls)
+  | None => None
+  end.
+
+Definition field_name_n (i : nat) : str := 95%N :: N_str (N.of_nat i).     (* f'_{i}' *)
+
+Fixpoint infer_type (v : pyval) : res dtype :=
+  match v with
+  | PNone => Ok t_null
+  | PList l =>
+      (fix first (l : list pyval) : res dtype :=
+         match l with
+         | [] => Ok (TArray t_null true)
+         | x :: r => if is_none x then first r else bind (infer_type x) (fun t => Ok (TArray t true))
+         end) l
+  | PDict kv =>
+      (fix first (kv : list (pyval * pyval)) : res dtype :=
+         match kv with
+         | [] => Ok (TMap t_null t_null true)
+         | (k, x) :: r =>
+             if is_none k || is_none x then first r
+             else bind (infer_type k) (fun kt => bind (infer_type x) (fun vt => Ok (TMap kt vt true)))
+         end) kv
+  | PRow names vals =>
+      bind ((fix go (names : list str) (vals : list pyval) {struct vals} : res (list (sfield dtype)) :=
+               match vals, names with
+               | x :: vals', n :: names' =>
+                   bind (infer_type x) (fun t => bind (go names' vals') (fun r => Ok (SField n t true [] :: r)))
+               | _, _ => Ok []
+               end) names vals) (fun fs => Ok (TStruct fs))
+  | PTuple vals =>
+      bind ((fix go (i : nat) (vals : list pyval) : res (list (sfield dtype)) :=
+               match vals with
+               | x :: vals' =>
+                   bind (infer_type x) (fun t => bind (go (S i) vals') (fun r => Ok (SField (field_name_n i) t true [] :: r)))
+               | [] => Ok []
+               end) 1%nat vals) (fun fs => Ok (TStruct fs))
+  | _ => match infer_mapped v with Some r => r | None => Err EType end
+  end.
+
+(* _infer_schema(row) for the rows of createDataFrame *)
+Definition infer_schema (row : pyval) : res dtype :=
+  match row with
+  | PRow _ _ | PTuple _ => infer_type row
+  | PList l => infer_type (PTuple l)
+  | PDict _ => Err EUnmodelled          (* sorted(row.items()) of a dict row *)
+  | _ => Err EType                      (* "Can not infer schema for type" *)
+  end.
+
+(* ------------------------------------------------------------------ _merge_type, _has_nulltype *)
+Fixpoint dict_set {A} (k : str) (v : A) (d : list (str * A)) : list (str * A) :=
+  match d with
+  | [] => [(k, v)]
+  | (k', v') :: r => if str_eqb k k' then (k, v) :: r else (k', v') :: dict_set k v r
+  end.
+Definition dict_of {A} (l : list (str * A)) : list (str * A) :=
+  fold_left (fun d p => dict_set (fst p) (snd p) d) l [].
+
+Definition str_mem (k : str) (l : list str) : bool := existsb (str_eqb k) l.
+
+Fixpoint merge_type (a b : dtype) : res dtype :=
+  if is_null a then Ok b
+  else if is_null b then Ok a
+  else if negb (String.eqb (dtype_class a) (dtype_class b)) then Err EType
+  else
+    match a with
+    | TStruct fa =>
+        let nfs := dict_of (match b with
+                            | TStruct fb => map (fun f => (sf_name f, sf_ty f)) fb
+                            | _ => []
+                            end) in
+        bind ((fix go (l : list (sfield dtype)) : res (list (sfield dtype)) :=
+                 match l with
+                 | [] => Ok []
+                 | f :: r =>
+                     match f with
+                     | SField n ty _ _ =>
+                         bind (merge_type ty (match nlookup n nfs with Some t => t | None => t_null end))
+                              (fun t => bind (go r) (fun r' => Ok (SField n t true [] :: r')))
+                     end
+                 end) fa)
+             (fun fields =>
+                let names := map sf_name fields in
+                Ok (TStruct (fields ++ map (fun p => SField (fst p) (snd p) true [])
+                                           (filter (fun p => negb (str_mem (fst p) names)) nfs))))
+    | TArray ea _ =>
+        match b with
+        | TArray eb _ => bind (merge_type ea eb) (fun e => Ok (TArray e true))
+        | _ => Ok a
+        end
+    | TMap ka va _ =>
+        match b with
+        | TMap kb vb _ => bind (merge_type ka kb) (fun k => bind (merge_type va vb) (fun v => Ok (TMap k v true)))
+        | _ => Ok a
+        end
+    | _ => Ok a
+    end.
+
+Fixpoint has_nulltype (t : dtype) : bool :=
+  match t with
+  | TStruct fs => existsb (fun f => has_nulltype (sf_ty f)) fs
+  | TArray e _ => has_nulltype e
+  | TMap k v _ => has_nulltype k || has_nulltype v
+  | TAtom ANull => true
+  | _ => false
+  end.
+
+(* functools.reduce(_merge_type, (_infer_schema(row) for row in data)) *)
+Fixpoint reduce_merge (acc : dtype) (rows : list pyval) : res dtype :=
+  match rows with
+  | [] => Ok acc
+  | r :: rest => bind (infer_schema r) (fun s => bind (merge_type acc s) (fun acc' => reduce_merge acc' rest))
+  end.
+
+(* schema_utils.infer_schema_from_list *)
+Definition infer_schema_from_list (rows : list pyval) : res dtype :=
+  match rows with
+  | [] => Err EValue
+  | PDict _ :: _ => Err ENotImplemented
+  | r :: rest =>
+      bind (infer_schema r) (fun s0 =>
+        bind (reduce_merge s0 rest) (fun s => if has_nulltype s then Err EValue else Ok s))
+  end.
+
+(* ------------------------------------------------------------------ the type verifier (_make_type_verifier) *)
+Definition acceptable (cls : string) (v : pyval) : res unit :=
+  match slookup cls acceptable_types with
+  | None => Err EAssertion                                  (* assert _type in _acceptable_types *)
+  | Some classes => if isinstance v classes then Ok tt else Err EType
+  end.
+
+Definition int_value (v : pyval) : option Z :=
+  match v with PInt z => Some z | PBool b => Some (if b then 1 else 0) | _ => None end.
+
+Fixpoint each {A} (f : A -> res unit) (l : list A) : res unit :=
+  match l with [] => Ok tt | x :: r => bind (f x) (fun _ => each f r) end.
+
+Fixpoint index_of (k : str) (l : list str) : option nat :=
+  match l with
+  | [] => None
+  | x :: r => if str_eqb k x then Some O else option_map S (index_of k r)
+  end.
+
+(* Row.__getitem__(name) *)
+Definition row_get (names : list str) (vals : list pyval) (k : str) : res pyval :=
+  match index_of k names with
+  | None => Err EValue
+  | Some i => match nth_error vals i with Some v => Ok v | None => Err EKey end
+  end.
+
+(* dict.get(name) on a dict whose keys are compared with a string *)
+Fixpoint dict_get (k : str) (kv : list (pyval * pyval)) : pyval :=
+  match kv with
+  | [] => PNone
+  | (PStr k', v) :: r => if str_eqb k k' then v else dict_get k r
+  | _ :: r => dict_get k r
+  end.
+
+Fixpoint verify (t : dtype) (nullable : bool) (v : pyval) : res unit :=
+  if is_none v then (if nullable then Ok tt else Err EValue)
+  else
+    let cls := dtype_class t in
+    if smem cls nocheck_types then Ok tt
+    else
+      match t with
+      | TArray e cn =>
+          bind (acceptable cls v) (fun _ =>
+            match v with
+            | PList l | PTuple l | PRow _ l => each (verify e cn) l
+            | _ => Err EUnmodelled
+            end)
+      | TMap k x vcn =>
+          bind (acceptable cls v) (fun _ =>
+            match v with
+            | PDict kv => each (fun p => bind (verify k false (fst p)) (fun _ => verify x vcn (snd p))) kv
+            | _ => Err EUnmodelled
+            end)
+      | TStruct fs =>
+          match slookup cls acceptable_types with
+          | None => Err EAssertion
+          | Some _ =>
+              match v with
+              | PDict kv =>
+                  (fix go (fs : list (sfield dtype)) : res unit :=
+                     match fs with
+                     | [] => Ok tt
+                     | SField n ty nl _ :: r => bind (verify ty nl (dict_get n kv)) (fun _ => go r)
+                     end) fs
+              | PRow names vals =>
+                  (fix go (fs : list (sfield dtype)) : res unit :=
+                     match fs with
+                     | [] => Ok tt
+                     | SField n ty nl _ :: r =>
+                         bind (row_get names vals n) (fun x => bind (verify ty nl x) (fun _ => go r))
+                     end) fs
+              | PTuple vals | PList vals =>
+                  if negb (Nat.eqb (List.length vals) (List.length fs)) then Err EValue
+                  else
+                    (fix go (fs : list (sfield dtype)) (vals : list pyval) : res unit :=
+                       match fs, vals with
+                       | SField n ty nl _ :: r, x :: vals' => bind (verify ty nl x) (fun _ => go r vals')
+                       | _, _ => Ok tt
+                       end) fs vals
+              | _ => Err EType
+              end
+          end
+      | _ =>
+          bind (acceptable cls v) (fun _ =>
+            match slookup cls ranged_types with
+            | Some (lo, hi) =>
+                match int_value v with
+                | Some z => if (z <? lo) || (hi <? z) then Err EValue else Ok tt
+                | None => Err EUnmodelled
+                end
+            | None => Ok tt
+            end)
+      end.
+
+(* ------------------------------------------------------------------ _create_converter *)
+Fixpoint need_converter (t : dtype) : bool :=
+  match t with
+  | TStruct _ => true
+  | TArray e _ => need_converter e
+  | TMap k v _ => need_converter k || need_converter v
+  | TAtom ANull => true
+  | _ => false
+  end.
+
+Fixpoint convert (t : dtype) (v : pyval) : res pyval :=
+  if negb (need_converter t) then Ok v
+  else
+    match t with
+    | TArray e _ =>
+        match v with
+        | PList l | PTuple l | PRow _ l => bind (mapM (convert e) l) (fun l' => Ok (PList l'))
+        | PDict _ | PStr _ | PBytes _ | PBytearray _ => Err EUnmodelled
+        | _ => Err EType                               (* [conv(v) for v in None]: not iterable *)
+        end
+    | TMap k x _ =>
+        match v with
+        | PDict kv =>
+            bind (mapM (fun p => bind (convert k (fst p)) (fun k' => bind (convert x (snd p)) (fun x' => Ok (k', x')))) kv)
+                 (fun kv' => Ok (PDict kv'))
+        | _ => Err EAttribute                          (* row.items() *)
+        end
+    | TStruct fs =>
+        let convert_fields := existsb (fun f => need_converter (sf_ty f)) fs in
+        match v with
+        | PNone => Ok PNone
+        | PRow names vals =>
+            if convert_fields then
+              bind ((fix go (fs : list (sfield dtype)) (vals : list pyval) : res (list pyval) :=
+                       match fs, vals with
+                       | SField _ ty _ _ :: r, x :: vals' =>
+                           bind (convert ty x) (fun y => bind (go r vals') (fun ys => Ok (y :: ys)))
+                       | _, _ => Ok []
+                       end) fs vals) (fun vals' => Ok (PRow names vals'))
+            else Ok v
+        | PTuple vals | PList vals =>
+            if convert_fields then
+              bind ((fix go (fs : list (sfield dtype)) (vals : list pyval) : res (list pyval) :=
+                       match fs, vals with
+                       | SField _ ty _ _ :: r, x :: vals' =>
+                           bind (convert ty x) (fun y => bind (go r vals') (fun ys => Ok (y :: ys)))
+                       | _, _ => Ok []
+                       end) fs vals) (fun vals' => Ok (PTuple vals'))
+            else Ok (PTuple vals)
+        | PDict kv =>
+            bind ((fix go (fs : list (sfield dtype)) : res (list pyval) :=
+                     match fs with
+                     | SField n ty _ _ :: r =>
+                         bind (if convert_fields then convert ty (dict_get n kv) else Ok (dict_get n kv))
+                              (fun y => bind (go r) (fun ys => Ok (y :: ys)))
+                     | [] => Ok []
+                     end) fs) (fun vals' => Ok (PTuple vals'))
+        | _ => Err EType                               (* "Unexpected obj type" *)
+        end
+    | TAtom ANull => Ok PNone
+    | _ => Ok v
+    end.
+
+(* ------------------------------------------------------------------ toInternal *)
+Definition const_need_conversion (cls : string) : bool :=
+  match slookup cls need_conversion_const with Some b => b | None => false end.
+
+Fixpoint need_conversion (t : dtype) : bool :=
+  match t with
+  | TArray e _ => need_conversion e
+  | TMap k v _ => need_conversion k || need_conversion v
+  | _ => const_need_conversion (dtype_class t)
+  end.
+
+Section ToInternal.
+  Variable local_offset : Z.      (* the UTC offset of the local zone, what astimezone() converts to *)
+
+  Fixpoint to_internal (t : dtype) (v : pyval) : res pyval :=
+    match t with
+    | TAtom ATimestamp =>
+        match v with
+        | PNone => Ok v
+        | PDatetime us (Some _) => Ok (PDatetime us (Some local_offset))
+        | PDatetime _ None => Ok v
+        | _ => Err EAttribute                          (* obj.tzinfo *)
+        end
+    | TArray e _ =>
+        if negb (need_conversion t) then Ok v
+        else if py_falsy v then Ok v
+        else match v with
+             | PList l | PTuple l | PRow _ l => bind (mapM (to_internal e) l) (fun l' => Ok (PList l'))
+             | PInt _ | PBool _ | PFloat _ | PDate _ | PDatetime _ _ | PDecimal _ => Err EType
+             | _ => Err EUnmodelled
+             end
+    | TMap k x _ =>
+        if negb (need_conversion t) then Ok v
+        else if py_falsy v then Ok v
+        else match v with
+             | PDict kv =>
+                 bind (mapM (fun p => bind (to_internal k (fst p)) (fun k' =>
+                                      bind (to_internal x (snd p)) (fun x' => Ok (k', x')))) kv)
+                      (fun kv' => Ok (PDict kv'))
+             | _ => Err EAttribute                     (* obj.items() *)
+             end
+    | TStruct fs =>
+        let any := existsb (fun f => need_conversion (sf_ty f)) fs in
+        match v with
+        | PNone => Ok PNone
+        | PDict kv =>
+            bind ((fix go (fs : list (sfield dtype)) : res (list pyval) :=
+                     match fs with
+                     | SField n ty _ _ :: r =>
+                         bind (if need_conversion ty then to_internal ty (dict_get n kv) else Ok (dict_get n kv))
+                              (fun y => bind (go r) (fun ys => Ok (y :: ys)))
+                     | [] => Ok []
+                     end) fs) (fun vals' => Ok (PTuple vals'))
+        | PRow names vals =>
+            if any then
+              bind ((fix go (fs : list (sfield dtype)) (vals : list pyval) : res (list pyval) :=
+                       match fs, vals with
+                       | SField _ ty _ _ :: r, x :: vals' =>
+                           bind (to_internal ty x) (fun y => bind (go r vals') (fun ys => Ok (y :: ys)))
+                       | _, _ => Ok []
+                       end) fs vals) (fun vals' => Ok (PRow names vals'))
+            else Ok v
+        | PTuple vals | PList vals =>
+            if any then
+              bind ((fix go (fs : list (sfield dtype)) (vals : list pyval) : res (list pyval) :=
+                       match fs, vals with
+                       | SField _ ty _ _ :: r, x :: vals' =>
+                           bind (if need_conversion ty then to_internal ty x else Ok x)
+                                (fun y => bind (go r vals') (fun ys => Ok (y :: ys)))
+                       | _, _ => Ok []
+                       end) fs vals) (fun vals' => Ok (PTuple vals'))
+            else Ok (PTuple vals)
+        | _ => Err EValue                              (* "Unexpected tuple ... with StructType" *)
+        end
+    | _ => Ok v
+    end.
+
+  (* DataFrameInternal: rdd.map(partial(create_row, cols)) -- tuple.__new__(Row, values) *)
+  Definition make_row (cols : list str) (internal : pyval) : res pyval :=
+    match internal with
+    | PTuple vals | PList vals | PRow _ vals => Ok (PRow cols vals)
+    | PNone | PInt _ | PBool _ | PFloat _ | PDate _ | PDatetime _ _ | PDecimal _ => Err EType
+    | _ => Err EUnmodelled
+    end.
+
+  Definition schema_names (s : dtype) : list str :=
+    match s with TStruct fs => map sf_name fs | _ => [] end.
+
+  (* createDataFrame(rows) without a schema, then collect() *)
+  Definition create_inferred (rows : list pyval) : res (list pyval) :=
+    bind (infer_schema_from_list rows) (fun s =>
+      bind (mapM (fun r => bind (convert s r) (to_internal s)) rows) (fun internal =>
+        mapM (make_row (schema_names s)) internal)).
+
+  (* createDataFrame(rows, schema) with a StructType schema (verifySchema=True), then collect() *)
+  Definition create_with_schema (s : dtype) (rows : list pyval) : res (list pyval) :=
+    match s with
+    | TStruct _ =>
+        bind (each (verify s true) rows) (fun _ =>
+          bind (mapM (to_internal s) rows) (fun internal =>
+            mapM (make_row (schema_names s)) internal))
+    | _ => Err EUnmodelled
+    end.
+End ToInternal.
+
+(* what the conversion may change: a timezone-aware datetime is re-expressed in the local zone *)
+Fixpoint tz_local (local_offset : Z) (v : pyval) : pyval :=
+  match v with
+  | PDatetime us (Some _) => PDatetime us (Some local_offset)
+  | PList l => PList (map (tz_local local_offset) l)
+  | PTuple l => PTuple (map (tz_local local_offset) l)
+  | PDict kv => PDict (map (fun p => (tz_local local_offset (fst p), tz_local local_offset (snd p))) kv)
+  | PRow names vals => PRow names (map (tz_local local_offset) vals)
+  | _ => v
+  end.
+
+(* ------------------------------------------------------------------ Row: asDict, __reduce__ / create_row *)
+Fixpoint pdict_set (k : str) (v : pyval) (d : list (pyval * pyval)) : list (pyval * pyval) :=
+  match d with
+  | [] => [(PStr k, v)]
+  | (PStr k', v') :: r => if str_eqb k k' then (PStr k', v) :: r else (PStr k', v') :: pdict_set k v r
+  | p :: r => p :: pdict_set k v r
+  end.
+
+(* dict(zip(names, values)) *)
+Fixpoint dict_zip (names : list str) (vals : list pyval) (d : list (pyval * pyval)) : list (pyval * pyval) :=
+  match names, vals with
+  | n :: names', v :: vals' => dict_zip names' vals' (pdict_set n v d)
+  | _, _ => d
+  end.
+
+Definition as_dict (r : pyval) : res pyval :=
+  match r with PRow names vals => Ok (PDict (dict_zip names vals [])) | _ => Err EUnmodelled end.
+
+(* the conv() of asDict(recursive=True) *)
+Fixpoint as_dict_conv (v : pyval) : pyval :=
+  match v with
+  | PRow names vals => PDict (dict_zip names (map as_dict_conv vals) [])
+  | PList l => PList (map as_dict_conv l)
+  | PDict kv => PDict (map (fun p => (fst p, as_dict_conv (snd p))) kv)
+  | _ => v
+  end.
+
+(* pickling: the pickle module is a black box that stores containers element-wise and calls
+   __reduce__ on a Row, which answers (create_row, (self.__fields__, tuple(self))) *)
+Inductive pickled :=
+| KLeaf (v : pyval)
+| KList (l : list pickled)
+| KTuple (l : list pickled)
+| KDict (kv : list (pickled * pickled))
+| KCreateRow (fields : pickled) (values : pickled).
+
+Fixpoint pickle_dumps (v : pyval) : pickled :=
+  match v with
+  | PList l => KList (map pickle_dumps l)
+  | PTuple l => KTuple (map pickle_dumps l)
+  | PDict kv => KDict (map (fun p => (pickle_dumps (fst p), pickle_dumps (snd p))) kv)
+  | PRow names vals => KCreateRow (KTuple (map (fun n => KLeaf (PStr n)) names)) (KTuple (map pickle_dumps vals))
+  | _ => KLeaf v
+  end.
+
+Fixpoint all_strs (l : list pyval) : option (list str) :=
+  match l with
+  | [] => Some []
+  | PStr s :: r => option_map (cons s) (all_strs r)
+  | _ => None
+  end.
+
+(* create_row(fields, values): tuple.__new__(Row, values); __fields__ = tuple(fields) *)
+Definition create_row (fields values : pyval) : res pyval :=
+  match fields, values with
+  | (PTuple fs | PList fs), (PTuple vs | PList vs) =>
+      match all_strs fs with Some names => Ok (PRow names vs) | None => Err EUnmodelled end
+  | _, _ => Err EUnmodelled
+  end.
+
+Fixpoint pickle_loads (k : pickled) : res pyval :=
+  let loads_list :=
+    fix go (l : list pickled) : res (list pyval) :=
+      match l with
+      | [] => Ok []
+      | x :: r => bind (pickle_loads x) (fun y => bind (go r) (fun ys => Ok (y :: ys)))
+      end in
+  match k with
+  | KLeaf v => Ok v
+  | KList l => bind (loads_list l) (fun l' => Ok (PList l'))
+  | KTuple l => bind (loads_list l) (fun l' => Ok (PTuple l'))
+  | KDict kv =>
+      bind ((fix go (kv : list (pickled * pickled)) : res (list (pyval * pyval)) :=
+               match kv with
+               | [] => Ok []
+               | p :: r => bind (pickle_loads (fst p)) (fun a => bind (pickle_loads (snd p)) (fun b =>
+                             bind (go r) (fun r' => Ok ((a, b) :: r'))))
+               end) kv) (fun kv' => Ok (PDict kv'))
+  | KCreateRow f v => bind (pickle_loads f) (fun f' => bind (pickle_loads v) (fun v' => create_row f' v'))
+  end.
